@@ -246,6 +246,7 @@ func init() {
 			ruleACT2(c)
 			ruleACT3(c)
 			ruleBIND3(c)
+			ruleFMT6(c) // the reduce sequence pops _termCounts[prod] entries and takes the goto of _rules[prod]: both must be written at the production's position
 		},
 		Thorough: func(c *Ctx) {
 			onInstances(c, func(c *Ctx) {
